@@ -657,6 +657,10 @@ func runC08(ctx *Ctx) error {
 			ctx.Res.Violate(fmt.Sprintf("shape:%d:member=%v", r.Shape, r.AsMember), fmt.Sprintf("schema %s (as a member: %v) is rendered as %s, documented %s", Canon(c08Shapes[r.Shape]), r.AsMember, r.Got, want), J{"schema": c08Shapes[r.Shape], "member": r.AsMember})
 		}
 	}
+	// the order of declarations: SortedSchemaKeys (x-order, then name) vs Model/SchemaOrder.lean
+	if err := corrSchemaOrder(ctx, ctx.N(1500, 20000)); err != nil {
+		return err
+	}
 	frs, err := c08FieldRows()
 	if err != nil {
 		return err
